@@ -380,6 +380,34 @@ Definition bind_param (d : decl) (rq : request) (valid : option nat) : outcome :
 
 End Bind.
 
+(* ------------------------------------------------------------------ UntypedRequestBinder.Bind: all parameters *)
+(* The loop of UntypedRequestBinder.Bind over the declared parameters of the operation (a Go map: the list
+   is the iteration order of this call), each with the verdict of its own validator. Every parameter is
+   bound AND validated whatever happened to the earlier ones; an error is appended to the result, a bound
+   value is put into the map target; at the end a non-empty result is the composite 422 error (here: the
+   names it names, in the order met), else the handler runs with the values. *)
+Inductive req_outcome :=
+| AllBound (vals : list (bytes * gval))
+| Rejected (names : list bytes)
+| ReqPanic (k : nat)
+| ReqUnspec.
+
+Fixpoint bind_loop (O : oracles) (rq : request) (ps : list (decl * option nat))
+         (vals : list (bytes * gval)) (errs : list bytes) : req_outcome :=
+  match ps with
+  | [] => match errs with [] => AllBound vals | _ :: _ => Rejected errs end
+  | p :: r =>
+    match bind_param O (fst p) rq (snd p) with
+    | Bound v => bind_loop O rq r (vals ++ [(d_name (fst p), v)]) errs
+    | R422 n _ => bind_loop O rq r vals (errs ++ [n])
+    | Panic k => ReqPanic k
+    | Unspec => ReqUnspec
+    end
+  end.
+
+Definition bind_request (O : oracles) (ps : list (decl * option nat)) (rq : request) : req_outcome :=
+  bind_loop O rq ps [] [].
+
 (* ------------------------------------------------------------------ /repo request.go *)
 (* runtime.ReadSingleValue / ReadCollectionValue (used by generated typed binders) *)
 Definition read_single_value (k : bytes) (ps : pairs) : bytes := last_or_empty (values_of k ps).
